@@ -1,7 +1,7 @@
 (* Non-interference of a disconnected part over whole runs of the master in simulation time
    (Model/SimTime.v): a stuttering simulation between the base run and the extended run. *)
 From TV Require Import Base Model.Wiring Model.Ticker Model.Component Model.Sim Model.SimTime
-  Proofs.SimP Proofs.FlattenP Proofs.NonInterfP.
+  Proofs.SimP Proofs.FlattenP Proofs.NonInterfP Proofs.FrameP.
 Open Scope Z_scope.
 
 (* ---------- the earliest wakeup *)
@@ -118,18 +118,43 @@ Proof.
   rewrite IH by (intros y Hy; apply H; right; exact Hy). reflexivity.
 Qed.
 
+(* the shape of the extended top level: devices, and system simulations that belong entirely to
+   the added part X (all devices of their subtree are in X; the nesting is a tree: the subtree
+   does not contain the top level) *)
+Definition xkind (cfg' : config) (isX : comp -> bool) (fuel : nat) (ck : comp * ckind) : Prop :=
+  match snd ck with
+  | KDev => True
+  | KSys lv' => isX (fst ck) = true /\ (forall d, In d (devices_below cfg' fuel lv') -> isX d = true) /\
+                ~ In top (levels_below cfg' fuel lv')
+  end.
+
+Lemma xkind_okkind cfg' devf isX fuel ck :
+  xkind cfg' isX fuel ck -> okkind (on_tick_level cfg' devf fuel) isX top ck.
+Proof.
+  unfold xkind, okkind. destruct (snd ck) as [|lv']; [auto|]. intros [Hc [Hd Ht]]. split; [exact Hc|].
+  intros t chg s. pose proof (on_tick_level_framed cfg' devf fuel lv' t chg s) as H.
+  destruct (on_tick_level cfg' devf fuel lv' t chg s) as [[[s2 o] ca] ob]. destruct H as [A [B C]].
+  split; [|split].
+  - intros c Hc0. apply A. intros Hi. rewrite (Hd c Hi) in Hc0. discriminate.
+  - apply B. exact Ht.
+  - intros o0 Ho. apply Hd. apply C. exact Ho.
+Qed.
+
 Section Run.
 Variables cfg cfg' : config.
 Variable devf : devfun.
 Variable isX : comp -> bool.
 Hypothesis Hord : l_order (level_of cfg top) = filter (fun ck : comp * ckind => negb (isX (fst ck))) (l_order (level_of cfg' top)).
 Hypothesis Hcon : l_conns (level_of cfg top) = filter (oldc isX) (l_conns (level_of cfg' top)).
-Hypothesis Hk : forall ck, In ck (l_order (level_of cfg' top)) -> snd ck = KDev.
+Variable fuel : nat.
+Hypothesis Hk : forall ck, In ck (l_order (level_of cfg' top)) -> xkind cfg' isX fuel ck.
 Hypothesis Hsep : forall k, In k (l_conns (level_of cfg' top)) -> isX (out_comp k) = isX (in_comp k).
 Hypothesis Hext : isX ext_id = false.
 Hypothesis Hexp : isX exp_id = false.
-Variable fuel : nat.
 Variable h : Z.
+
+Lemma Hk_ok : forall ck, In ck (l_order (level_of cfg' top)) -> okkind (on_tick_level cfg' devf fuel) isX top ck.
+Proof. intros ck Hi. apply xkind_okkind. apply Hk. exact Hi. Qed.
 
 Definition pre_tick (s : sstate) (when : Z) (roots : list comp) : sstate :=
   log_tick (set_wake s top (filter (fun e : comp * Z => negb (memb (fst e) roots)) (wake_of s top))) top when roots.
@@ -185,7 +210,7 @@ Proof.
                       srel isX top s1 s1' /\ (fin' = true -> fin = true)).
     { intros Hr.
       pose proof (tick_noninterference cfg cfg' devf (on_tick_level cfg devf fuel) (on_tick_level cfg' devf fuel) isX top m' [] roots' []
-                    s (pre_tick s' m' roots') Hord Hcon Hk Hsep Hext Hexp) as Hn.
+                    s (pre_tick s' m' roots') Hord Hcon Hk_ok Hsep Hext Hexp) as Hn.
       cbv zeta in Hn. rewrite tick_empty, Et' in Hn.
       destruct Hn as [Hs2 [_ Ho]]; [intros c Hc; rewrite (Hr c Hc); reflexivity | apply srel_stutter; assumption |].
       destruct (IH s s2' (ob' ++ o') s1' o1' fin' Hs2 Hrun) as [n [s1 [fin [Hle [Hb [Hr1 Hf]]]]]].
@@ -196,7 +221,7 @@ Proof.
         assert (Hr : forall c, isX c = false -> memb c roots' = memb c roots).
         { apply (roots_same isX (wake_of s' top) m'); [exact E' | rewrite Hw; exact E]. }
         pose proof (tick_noninterference cfg cfg' devf (on_tick_level cfg devf fuel) (on_tick_level cfg' devf fuel) isX top m' roots roots' []
-                      (pre_tick s m' roots) (pre_tick s' m' roots') Hord Hcon Hk Hsep Hext Hexp Hr (srel_prepare s s' m' roots roots' Hs Hr)) as Hn.
+                      (pre_tick s m' roots) (pre_tick s' m' roots') Hord Hcon Hk_ok Hsep Hext Hexp Hr (srel_prepare s s' m' roots roots' Hs Hr)) as Hn.
         cbv zeta in Hn. rewrite Et' in Hn.
         destruct (tick_with cfg devf (on_tick_level cfg devf fuel) top m' roots [] (pre_tick s m' roots)) as [[s2 out] o] eqn:Et.
         destruct Hn as [Hs2 [_ Ho]].
@@ -227,7 +252,8 @@ Variable devf : devfun.
 Variable isX : comp -> bool.
 Hypothesis Hord : l_order (level_of cfg top) = filter (fun ck : comp * ckind => negb (isX (fst ck))) (l_order (level_of cfg' top)).
 Hypothesis Hcon : l_conns (level_of cfg top) = filter (oldc isX) (l_conns (level_of cfg' top)).
-Hypothesis Hk : forall ck, In ck (l_order (level_of cfg' top)) -> snd ck = KDev.
+Variable fuel : nat.
+Hypothesis Hk : forall ck, In ck (l_order (level_of cfg' top)) -> xkind cfg' isX fuel ck.
 Hypothesis Hsep : forall k, In k (l_conns (level_of cfg' top)) -> isX (out_comp k) = isX (in_comp k).
 Hypothesis Hext : isX ext_id = false.
 Hypothesis Hexp : isX exp_id = false.
@@ -244,7 +270,7 @@ Qed.
 (* whole runs from start-up: when the extended simulation has run to completion (nothing is
    pending up to the horizon), so has the base simulation with the same number of steps, and
    every base device has observed exactly the same sequence *)
-Theorem run_noninterference n fuel initial h s1' o1' :
+Theorem run_noninterference n initial h s1' o1' :
   sim_run cfg' devf n fuel initial h = (s1', o1', true) ->
   exists s1, sim_run cfg devf n fuel initial h = (s1, filter (notX isX) o1', true) /\ srel isX top s1 s1'.
 Proof.
@@ -255,12 +281,12 @@ Proof.
   assert (Hs0 : srel isX top (log_tick (set_wake s_init top []) top initial roots) (log_tick (set_wake s_init top []) top initial roots')).
   { split; [intros; reflexivity|]. split; [intros; reflexivity | reflexivity]. }
   pose proof (tick_noninterference cfg cfg' devf (on_tick_level cfg devf fuel) (on_tick_level cfg' devf fuel) isX top initial roots roots' []
-                _ _ Hord Hcon Hk Hsep Hext Hexp Hr Hs0) as Hn.
+                _ _ Hord Hcon (fun ck Hi => xkind_okkind cfg' devf isX fuel ck (Hk ck Hi)) Hsep Hext Hexp Hr Hs0) as Hn.
   cbv zeta in Hn. unfold tick_level in *.
   destruct (tick_with cfg' devf (on_tick_level cfg' devf fuel) top initial roots' [] _) as [[s0' out'] ob'].
   destruct (tick_with cfg devf (on_tick_level cfg devf fuel) top initial roots [] _) as [[s0 out] ob].
   destruct Hn as [Hs [_ Ho]].
-  destruct (loop_sim cfg cfg' devf isX Hord Hcon Hk Hsep Hext Hexp fuel h n s0 s0' ob' s1' o1' true Hs Hrun)
+  destruct (loop_sim cfg cfg' devf isX Hord Hcon fuel Hk Hsep Hext Hexp h n s0 s0' ob' s1' o1' true Hs Hrun)
     as [n0 [s1 [fin [Hle [Hb [Hs1 Hf]]]]]].
   rewrite (Hf eq_refl) in Hb. rewrite Ho in Hb. exists s1. split; [|exact Hs1].
   apply (sim_loop_complete_mono cfg devf fuel h n0 _ _ _ _ Hb n Hle).
